@@ -13,7 +13,7 @@ RULE = (
     "a case is an http/https URL built from (scheme spelling, optional userinfo, host from {names, upper-case, trailing dot, "
     "IDN, A-label, IPv4, [IPv6], [IPv6%25zone]}, port {absent, explicit default, odd, leading zeros}, path with dot segments / "
     "escapes / spaces / non-ASCII / backslash, query, fragment) sent with PoolManager directly, through a forwarding proxy, and "
-    "through a CONNECT tunnel (http and https proxies), optionally reached through a redirect, optionally after the same manager (with manager-level headers or a header mapping the caller reuses) has served another origin, each together with an EQUIVALENT spelling (scheme/host letter case flipped, explicit default "
+    "through a CONNECT tunnel (http and https proxies), optionally reached through a redirect, optionally after the same manager (with manager-level headers, a header mapping the caller reuses, or proxy_headers and an earlier CONNECT tunnel) has served another origin, each together with an EQUIVALENT spelling (scheme/host letter case flipped, explicit default "
     "port added or removed). The URL string is read by the independent RFC 3986 splitter (vlib/refurl.py) and compared with "
     "what the socket layer and the servers saw: address dialled, CONNECT line, TLS server name, Host header (strict "
     "grammar), request target. Non-trivial = host is IPv6 / IDN / has a trailing dot or zone, or the URL has userinfo / a "
@@ -40,7 +40,7 @@ HOST_HDR_RE = re.compile(r"^(\[[0-9A-Fa-f:.]+(%(25)?[A-Za-z0-9._~-]+)?\]|[A-Za-z
 TARGET_OK = refurl.QUERY_OK
 
 
-PRIORS = (None, "mgr-headers", "shared-dict")
+PRIORS = (None, "mgr-headers", "shared-dict", "proxy-headers-tunnel")
 
 
 def _scale(n):
@@ -201,6 +201,9 @@ def run_one(url: str, route: str, w, net, pm, exp, fails, sig, brief, via_redire
                 want |= {f"[{exp['sni']}%25{exp['zone']}]:{exp['port']}".lower(), f"[{exp['sni']}]:{exp['port']}".lower()}
             if c["target"].lower() not in want:
                 fails.append(Failure("connect-line", {**sig, "what": "target", "v6": exp["is_v6"]}, f"CONNECT {c['target']!r}, expected one of {sorted(want)}: {brief()}"))
+            ch = [h.decode("latin-1") for h in c["msg"].get("host")]
+            if len(ch) > 1 or (ch and ch[0].lower() not in want and ch[0].lower() not in {x.rsplit(":", 1)[0] for x in want}):
+                fails.append(Failure("connect-line", {**sig, "what": "host-header", "v6": exp["is_v6"]}, f"CONNECT {c['target']!r} carries Host: {ch}: {brief()}"))
     # ---- TLS server name
     if exp["scheme"] == "https" and route != "forward":
         layers = [l for l in e["tls"] if l["role"] in ("origin", "origin-in-tunnel")]
@@ -279,6 +282,7 @@ def run_case(case) -> list[Failure]:
     w.add_origin("http", "start.test", 80)
     ident = nulltls.Identity([("IP Address" if exp["is_v6"] or re.fullmatch(r"[0-9.]+", exp["sni"]) else "DNS", exp["sni"])], label="origin") if scheme == "https" else None
     w.add_origin(scheme, exp["dial"][0], exp["dial"][1], identity=ident)
+    w.add_origin("https", "prior.test", 443, identity=nulltls.Identity([("DNS", "prior.test")], label="prior"))
     w.add_proxy("http", "proxy.test", 3128)
     w.add_proxy("https", "sproxy.test", 3129)
     ctx = nulltls.NullTLSContext("c15")
@@ -292,6 +296,10 @@ def run_case(case) -> list[Failure]:
     prior = case.get("prior")
     shared = {"X-App": "verif"} if prior == "shared-dict" else None
     mkw = {"headers": {"X-App": "verif"}} if prior == "mgr-headers" else {}
+    if prior == "proxy-headers-tunnel":
+        if route == "direct":
+            raise core.InvalidCase
+        mkw = {"proxy_headers": {"Proxy-Authorization": "Basic dmVyaWY6eA=="}}  # one dict shared by the manager and all its pools
     with fakenet.Net(w) as net:
         if route == "direct":
             pm = urllib3.PoolManager(ssl_context=ctx, **mkw)
@@ -304,7 +312,8 @@ def run_case(case) -> list[Failure]:
                 # the same manager (and the same header mapping) served a request to ANOTHER origin just before
                 sig = {**sig, "prior": prior}
                 try:
-                    pm.request("GET", "http://start.test/first", retries=False, redirect=False, **({} if shared is None else {"headers": shared})).data
+                    # (with proxy headers: the earlier request went through a CONNECT tunnel to another https origin)
+                    pm.request("GET", "https://prior.test/first" if prior == "proxy-headers-tunnel" else "http://start.test/first", retries=False, redirect=False, **({} if shared is None else {"headers": shared})).data
                 except Exception as ex:  # noqa: BLE001
                     raise core.HarnessError(f"the plain prior request failed: {type(ex).__name__}: {ex}")
             via = bool(case.get("via_redirect"))
@@ -391,7 +400,7 @@ def enum_cases(tier):
                 yield dict(_mk(scheme, None, host, port, PATHS[k % len(PATHS)], QUERIES[k % len(QUERIES)], None, route), via_redirect=True)
             if port in (None, "8080") and scheme in ("http", "https"):
                 # the manager (with manager-level headers, or a header mapping the caller reuses) has just served another origin
-                yield dict(_mk(scheme, None, host, port, PATHS[k % len(PATHS)], QUERIES[k % len(QUERIES)], None, route), prior=("mgr-headers", "shared-dict")[k % 2], via_redirect=bool(k % 3 == 0) and build_url({"scheme": scheme, "host": host, "path": PATHS[k % len(PATHS)], "query": QUERIES[k % len(QUERIES)]}).isascii())
+                yield dict(_mk(scheme, None, host, port, PATHS[k % len(PATHS)], QUERIES[k % len(QUERIES)], None, route), prior=(("mgr-headers", "shared-dict", "proxy-headers-tunnel")[k % 3] if route != "direct" else ("mgr-headers", "shared-dict")[k % 2]), via_redirect=bool(k % 3 == 0) and build_url({"scheme": scheme, "host": host, "path": PATHS[k % len(PATHS)], "query": QUERIES[k % len(QUERIES)]}).isascii())
     for path, query, frag, ui in itertools.product(PATHS, QUERIES, FRAGS, USERINFO):
         k += 1
         if tier == "quick" and k % 3:
@@ -405,13 +414,13 @@ def _hyp():
 
     def mk(scheme, ui, host, port, path, query, frag, r, prior):
         c = _mk(scheme, ui, host, port, path, query, frag, routes_for(scheme)[r])
-        if prior is not None:
+        if prior is not None and not (prior == "proxy-headers-tunnel" and c["route"] == "direct"):
             c["prior"] = prior
         return c
 
     return st.builds(mk, st.sampled_from(SCHEMES), st.sampled_from(USERINFO), st.sampled_from(HOSTS), st.sampled_from(PORTS),
                      st.one_of(st.sampled_from(PATHS), st.lists(st.sampled_from(["a", "b c", "..", ".", "", "%41", "é", "x;y", "a\\b", "~", "%zz"]), min_size=1, max_size=5).map(lambda l: "/" + "/".join(l))),
-                     st.sampled_from(QUERIES), st.sampled_from(FRAGS), st.integers(0, 2), st.sampled_from([None, None, "mgr-headers", "shared-dict"]))
+                     st.sampled_from(QUERIES), st.sampled_from(FRAGS), st.integers(0, 2), st.sampled_from([None, None, "mgr-headers", "shared-dict", "proxy-headers-tunnel"]))
 
 
 def shards(tier, seed):
